@@ -72,32 +72,34 @@ def Saturation(x, xmin, xmax):
 
 @njit(cache=True)
 def In(x, xmin, xmax):
+    # a float mask: an int32 mask times an integer literal of the generated code stays int32 and wraps around at 2**31
+    # (2000000000*In(x, 0, 2) + 2000000000*In(x, 1, 3) == -294967296 where both masks are 1)
     x = np.asarray(x).reshape((-1,))
-    return np.bitwise_and(x >= xmin, x <= xmax).astype(np.int32)
+    return np.bitwise_and(x >= xmin, x <= xmax).astype(np.float64)
 
 
 @njit(cache=True)
 def GreaterThan(x, y):
     x = np.asarray(x).reshape((-1,))
-    return (x > y).astype(np.int32)
+    return (x > y).astype(np.float64)
 
 
 @njit(cache=True)
 def LessThan(x, y):
     x = np.asarray(x).reshape((-1,))
-    return (x < y).astype(np.int32)
+    return (x < y).astype(np.float64)
 
 
 @njit(cache=True)
 def And(x, y):
     x = np.asarray(x).reshape((-1,))
-    return x & y
+    return np.logical_and(x != 0, np.asarray(y) != 0).astype(np.float64)
 
 
 @njit(cache=True)
 def Or(x, y):
     x = np.asarray(x).reshape((-1,))
-    return x | y
+    return np.logical_or(x != 0, np.asarray(y) != 0).astype(np.float64)
 
 
 @njit(cache=True)
